@@ -6,6 +6,7 @@ import (
 
 	"verifharness/internal/fw"
 	"verifharness/internal/gen"
+	"verifharness/internal/model"
 	"verifharness/internal/proto"
 )
 
@@ -247,6 +248,28 @@ func C06(c *fw.Ctx) {
 			}
 			emit(&proto.Job{ID: fmt.Sprintf("cold/%d", i), Conc: cj, Fresh: true})
 		}
+		// ... and in a process that is warm: 8 rounds of 32 goroutines that build and serialise 8 projects (corpus documents and
+		// rendered models, whose schemas have object and array examples) behind a barrier, then every catalog serialised by 8
+		// goroutines at once; compared with the results of the same builds alone
+		sr := gen.Rng(c.Seed, c.ID, "steady")
+		for i := 0; i < c.Pick(16, 200); i++ {
+			cj := &proto.ConcJob{Goroutines: 32, Rounds: 8, SharedSer: 8, Seed: c.Seed*1000 + int64(i)}
+			for len(cj.Projects) < 8 {
+				if len(cj.Projects)%2 == 0 {
+					m := model.Generate(sr, model.QuickSize)
+					l := model.RandomLayout(sr)
+					l.Includes = false
+					rd := m.Render(l)
+					cj.Projects = append(cj.Projects, proto.ConcProject{Name: fmt.Sprintf("model-%d-%d", i, len(cj.Projects)), Content: rd.Files[rd.Root]})
+					continue
+				}
+				p := corpus[sr.Intn(len(corpus))]
+				if !p.HasInclude() {
+					cj.Projects = append(cj.Projects, proto.ConcProject{Name: p.Name, Content: p.RootContent()})
+				}
+			}
+			emit(&proto.Job{ID: fmt.Sprintf("steady/%d", i), Conc: cj})
+		}
 	}, func(j *proto.Job, res *proto.Result) {
 		if workerProblem(c, res) {
 			return
@@ -264,18 +287,22 @@ func C06(c *fw.Ctx) {
 			}
 			return
 		}
-		if label == "cold" {
+		if label == "cold" || label == "steady" {
 			c.Count(j.ID+fmt.Sprint(j.Conc.Seed), true)
-			c.Inc("streams", "cold-start-concurrent-first-use", 1)
+			c.Inc("streams", map[string]string{"cold": "cold-start-concurrent-first-use", "steady": "concurrent-rounds-in-a-warm-process"}[label], 1)
 			if res.Fatal != nil {
 				c.Violate("fatal:"+res.Fatal.Kind+":"+res.Fatal.Func, "concurrent first use of the library in a fresh process killed it: "+firstLines(res.Fatal.Stderr, 6), replayOf(j, res))
 				return
 			}
 			if res.Conc != nil {
-				c.Inc("builds_compared", "cold-start", res.Conc.Builds)
+				c.Inc("builds_compared", map[string]string{"cold": "cold-start", "steady": "concurrent-rounds"}[label], res.Conc.Builds)
 				for _, m := range res.Conc.Mismatches {
-					if strings.HasPrefix(m, "only-examples:") {
+					if concMismatchIsD27(j, m) {
 						c.Violate("nondeterministic:"+sigRegexExample, m, replayOf(j, res))
+						continue
+					}
+					if label == "steady" {
+						c.Violate("nondeterministic:concurrent-builds", "a build or serialisation that ran concurrently with others differs from the same one alone: "+m, replayOf(j, res))
 						continue
 					}
 					c.Violate("nondeterministic:concurrent-first-use", "a build that ran concurrently with the first use of the library differs from the same build alone: "+m, replayOf(j, res))
